@@ -246,3 +246,33 @@ func init() {
 			New: "\tif current := objectSet.GetRevision(); current > 0 {\n"},
 	)
 }
+
+// Round two: the verdict of the delay loop travels through a boolean (flag variable, or a boolean
+// helper whose body the normaliser merged into Reconcile): early exit and exhaustion meet in one
+// block and are separated again only by the test of the merged boolean.
+func init() {
+	const osr = "internal/controllers/objectdeployments/objectset_reconciler.go"
+	const delayLoop = "\tfor _, objectSet := range objectSets {\n\t\tif objectSet.GetRevision() == 0 {\n\t\t\treturn ctrl.Result{}, nil\n\t\t}\n\t}\n"
+	addMutants(
+		Mutant{Prop: "C07", Name: "r1-benign-verdict-through-flag", File: osr, Benign: true,
+			Old: delayLoop,
+			New: "\tallReported := true\n\tfor _, objectSet := range objectSets {\n\t\tif objectSet.GetRevision() == 0 {\n\t\t\tallReported = false\n\t\t\tbreak\n\t\t}\n\t}\n\tif !allReported {\n\t\treturn ctrl.Result{}, nil\n\t}\n"},
+		Mutant{Prop: "C07", Name: "r1-benign-verdict-through-boolean-helper", File: osr, Benign: true,
+			Old: delayLoop,
+			New: "\tif !allRevisionsReported(objectSets) {\n\t\treturn ctrl.Result{}, nil\n\t}\n",
+			More: []Edit{{File: osr, Old: "// Does current objectset exist?\n",
+				New: "func allRevisionsReported(objectSets []adapters.ObjectSetAccessor) bool {\n\tfor _, objectSet := range objectSets {\n\t\tif objectSet.GetRevision() == 0 {\n\t\t\treturn false\n\t\t}\n\t}\n\treturn true\n}\n\n// Does current objectset exist?\n"}}},
+		Mutant{Prop: "C07", Name: "r1-flag-never-cleared", File: osr,
+			Why:    "the early exit leaves the flag true: Reconcile goes on although an ObjectSet has not reported its revision",
+			Old:    delayLoop,
+			New:    "\tallReported := true\n\tfor _, objectSet := range objectSets {\n\t\tif objectSet.GetRevision() == 0 {\n\t\t\tallReported = true\n\t\t\tbreak\n\t\t}\n\t}\n\tif !allReported {\n\t\treturn ctrl.Result{}, nil\n\t}\n",
+			Expect: []string{"C07.R1@"}},
+		Mutant{Prop: "C07", Name: "r1-boolean-helper-verdict-inverted", File: osr,
+			Why: "the helper reports `all reported` exactly when one is missing",
+			Old: delayLoop,
+			New: "\tif !allRevisionsReported(objectSets) {\n\t\treturn ctrl.Result{}, nil\n\t}\n",
+			More: []Edit{{File: osr, Old: "// Does current objectset exist?\n",
+				New: "func allRevisionsReported(objectSets []adapters.ObjectSetAccessor) bool {\n\tfor _, objectSet := range objectSets {\n\t\tif objectSet.GetRevision() == 0 {\n\t\t\treturn true\n\t\t}\n\t}\n\treturn len(objectSets) == 0\n}\n\n// Does current objectset exist?\n"}},
+			Expect: []string{"C07.R1@"}},
+	)
+}
